@@ -17,7 +17,7 @@ LEVEL_NOTE = "Trusted: virtual clock, probes attached from /verif (wait_for_next
 DESIGN_REF = "§5 C31"
 RULE = "case = (program, cancel point k) or (program, timeout T); distinct = hash of (program, fault); non-trivial = fault lands while the run is unfinished"
 REQUIRED_REACH = ["cancel_point", "cancelled_run", "cancel_after_finish", "timeout_case", "timed_out_run", "timeout_after_finish", "resume_after_cancel",
-                  "active_steps_eval", "active_steps_nonempty", "reserialize_after_resume", "deadline_inside_blocked_stretch", "stop_returned_before_deadline_loop_regained_after"]
+                  "active_steps_eval", "active_steps_nonempty", "reserialize_after_resume", "deadline_inside_blocked_stretch", "stop_returned_before_deadline_loop_regained_after", "resumed_run_with_timeout"]
 ASSUMPTIONS = ["timeout instants avoid exact ties with the run's own event times (x.37 offsets)"]
 
 
@@ -141,6 +141,18 @@ def check_cancel(case, k, ref, acc):
         acc.violation({"mech": "resume_after_cancel_result_differs"}, f"resumed after cancel at yield {k}: {tr2.outcome} != {tr0.outcome}", wit)
     elif tr2.extra.get("final_state") != tr0.extra.get("final_state"):
         acc.violation({"mech": "resume_after_cancel_state_differs"}, f"resumed after cancel at yield {k}: state {tr2.extra.get('final_state')} != {tr0.extra.get('final_state')}", wit)
+    # ---- the resumed run is a run like any other: its workflow timeout applies to it
+    if tr2.outcome is not None and tr2.extra.get("vt_handler_done", 0) > 0.2:
+        Tr = round(min(0.13, tr2.extra["vt_handler_done"] / 2), 3)
+        tr3 = engine_run.run_case({**case["spec"], "uid_base": 2000, "timeout": Tr}, ctx_factory=lambda w: Context.from_dict(w, json.loads(json.dumps(snap))), start=False)
+        acc.case()
+        acc.hit("resumed_run_with_timeout")
+        if not tr3.errors:
+            kind3 = oracles.outcome_kind(tr3)
+            done3 = tr3.extra.get("vt_handler_done")
+            if kind3 != "timeout" and (done3 is None or done3 > Tr + 1e-6):
+                acc.violation({"mech": "unfinished_run_not_timed_out", "outcome": str(kind3), "resumed": True},
+                              f"context of a run cancelled at yield {k} resumed with timeout={Tr}: the resumed run went on until vt={done3} and ended as {tr3.outcome}", wit)
 
 
 def check_timeout(case, T, ref, acc):
